@@ -433,7 +433,7 @@ theorem I0_connReset (h : I0 c) : I0 (connReset c) := by
 
 /-- an accepted connect starts attempt `a + 1` -/
 theorem J_accept {c c' : Conn} {a : Nat}
-    (hatt : c.g.attempt = a) (hcrash : c.crash = none)
+    (_hatt : c.g.attempt = a) (hcrash : c.crash = none)
     (hev : ∀ p ∈ c.evs, 0 < p.1.attempt ∧ p.1.attempt ≤ a) (hcnt : ∀ a', cnt a' c.evs ≤ 1)
     (htn : (c.timed.map (·.uid)).Nodup) (htu : ∀ x ∈ c.timed, x.uid < c.nextUid)
     (e1 : c'.g = { attempt := a + 1 }) (e2 : c'.state = .connecting) (e3 : c'.evs = c.evs)
